@@ -34,6 +34,16 @@ Definition dense (side : bool) (cf : list inc) (f : nat) : option nat :=
   | None => None
   end.
 
+(* components of an incidence entry, and the executable well-formedness check evaluated
+   on every generated grid: at most one cell on each side of every face *)
+Definition tf (t : inc) : nat := fst (fst t).
+Definition tc (t : inc) : nat := snd (fst t).
+Definition ts (t : inc) : Z := snd t.
+
+Definition one_sidedb (cf : list inc) : bool :=
+  forallb (fun t => forallb (fun t' =>
+     negb ((tf t =? tf t') && (0 <? ts t * ts t')%Z) || (tc t =? tc t')) cf) cf.
+
 (* np.asarray(sd.divergence(dim=1).sum(axis=0)) : per face, the sum of the stored signs *)
 Definition sgn_div (cf : list inc) (f : nat) : Z :=
   fold_right (fun (t : inc) acc => let '(fi, _, s) := t in
@@ -152,20 +162,27 @@ Definition shape_eqb (a b : nat * nat) : bool := (fst a =? fst b) && (snd a =? s
 Definition nthb (l : list bool) (i : nat) : bool := nth i l false.
 Definition nthz (l : list Z) (i : nat) : Z := nth i l 0%Z.
 
-Definition mk_input (dim nf nc : nat) (cf : list inc) (q : list Z) (isdir isneu : list bool)
-           (k : nat) : input Z :=
-  {| dim := dim; nf := nf; nc := nc; cf := cf; q := nthz q; is_dir := nthb isdir;
-     is_neu := nthb isneu; ncomp := k |}.
+(* The harness writes every index as a binary Z literal (unary nat literals are slow to
+   parse); they are converted here, inside the evaluated term. *)
+Definition zt := (Z * Z * Z)%type.
+Definition of_zt (t : zt) : nat * nat * Z := let '(a, b, v) := t in (Z.to_nat a, Z.to_nat b, v).
+Definition of_zshape (s : Z * Z) : nat * nat := (Z.to_nat (fst s), Z.to_nat (snd s)).
+
+Definition mk_input (dim nf nc : Z) (cf : list zt) (q : list Z) (isdir isneu : list bool)
+           (k : Z) : input Z :=
+  {| dim := Z.to_nat dim; nf := Z.to_nat nf; nc := Z.to_nat nc; cf := map of_zt cf;
+     q := nthz q; is_dir := nthb isdir; is_neu := nthb isneu; ncomp := Z.to_nat k |}.
+
+Definition zmat := (list zt * (Z * Z))%type.
 
 (* expected: None = the implementation raised ValueError; Some (three matrices with shapes) *)
-Definition agree (I : input Z)
-           (expected : option ((coo * (nat * nat)) * (coo * (nat * nat)) * (coo * (nat * nat))))
-  : bool :=
+Definition agree (I : input Z) (expected : option (zmat * zmat * zmat)) : bool :=
+  one_sidedb (cf I) &&
   match discretize Z nonnegZ I, expected with
   | Err ValueErr, None => true
   | Ok o, Some (u, us, (d, ds), (n, ns)) =>
-      coo_eqb (canon (upwind o)) u && shape_eqb (upwind_shape o) us
-      && coo_eqb (canon (bound_dir o)) d && shape_eqb (bound_dir_shape o) ds
-      && coo_eqb (canon (bound_neu o)) n && shape_eqb (bound_neu_shape o) ns
+      coo_eqb (canon (upwind o)) (map of_zt u) && shape_eqb (upwind_shape o) (of_zshape us)
+      && coo_eqb (canon (bound_dir o)) (map of_zt d) && shape_eqb (bound_dir_shape o) (of_zshape ds)
+      && coo_eqb (canon (bound_neu o)) (map of_zt n) && shape_eqb (bound_neu_shape o) (of_zshape ns)
   | _, _ => false
   end.
